@@ -315,7 +315,11 @@ impl Request {
             if !is_first_iteration {
                 let header = Request::parse_http_request_header_string(&string);
                 if header.name == Header::_CONTENT_LENGTH {
-                    content_length = header.value.parse().unwrap();
+                    // the value is not used for reading the body: a malformed one is ignored, not a panic
+                    let boxed_content_length = header.value.parse::<usize>();
+                    if boxed_content_length.is_ok() {
+                        content_length = boxed_content_length.unwrap();
+                    }
                 }
                 request.headers.push(header);
             }
